@@ -259,6 +259,17 @@ impl EGraph {
                 .map_err(|e| Error::BackendError(e.to_string()))?;
 
             // Step 3: let the scheduler decide which matches need to be kept
+            //
+            // Matches that were not chosen in an earlier iteration are plain values
+            // held outside the database, so rebuilding never sees them. Bring them up
+            // to date with the union-find before they are offered (and applied) again.
+            for (rule_id, _rule) in rules.iter() {
+                record
+                    .rule_info
+                    .get(rule_id)
+                    .unwrap()
+                    .canonicalize_matches(&self.backend);
+            }
             self.backend
                 .with_execution_state(Some(&self.type_info), |state| {
                     for (rule_id, _rule) in rules.iter() {
@@ -363,6 +374,44 @@ impl ExternalFunction for CollectMatches {
 }
 
 impl SchedulerRuleInfo {
+    /// Rewrite the pending matches (the residual of earlier iterations plus the
+    /// ones the query rule just collected) to canonical ids and drop duplicates.
+    ///
+    /// Residual matches live outside the database, so they are not rebuilt when
+    /// e-classes are merged between the iteration that collected a match and the
+    /// iteration that applies it. Applying such a match as is would write rows
+    /// with displaced ids (leaving the database non-canonical, or failing a
+    /// `subsume` lookup), and a row that was rebuilt in the meantime matches
+    /// again, so the same match would be offered twice under two different ids.
+    ///
+    /// Container values are ids in the same union-find (a container that becomes
+    /// equal to another one is unioned with it), so the lookup covers them too.
+    fn canonicalize_matches(&self, backend: &egglog_bridge::EGraph) {
+        if self.free_vars.is_empty() {
+            // Variable-free rules only collect unit markers.
+            return;
+        }
+        let tys: Vec<ColumnTy> = self
+            .free_vars
+            .iter()
+            .map(|v| v.sort.column_ty(backend))
+            .collect();
+        let mut matches = self.matches.lock().unwrap();
+        let mut seen: HashSet<Vec<Value>> = HashSet::default();
+        let mut canonical = Vec::with_capacity(matches.len());
+        for row in matches.chunks(tys.len()) {
+            let row: Vec<Value> = row
+                .iter()
+                .zip(tys.iter())
+                .map(|(v, ty)| backend.get_canon_repr(*v, *ty))
+                .collect();
+            if seen.insert(row.clone()) {
+                canonical.extend(row);
+            }
+        }
+        *matches = canonical;
+    }
+
     fn new(
         egraph: &mut EGraph,
         rule: &ResolvedCoreRule,
